@@ -279,6 +279,7 @@ var c12ConcEnumerate func(tier string, emit func(string, any))
 func c12Enumerate(tier string, seed int64, emit func(string, any)) {
 	emit("sequential", c12Case{Kind: "seq", Keys: 3, Vals: 2})
 	emit("sequential", c12Case{Kind: "seq", Keys: 2, Vals: 2})
+	emit("sequential", c12Case{Kind: "seq", Keys: 4, Vals: 1}) // four keys: tombstones and dirty-only keys can balance each other
 	if tier == "thorough" {
 		emit("sequential", c12Case{Kind: "seq", Keys: 4, Vals: 2})
 	}
